@@ -75,7 +75,7 @@ pub fn run_lane_n(prop: &str, seed: u64, run: u64) -> RunReport {
     let s = prng::mix(seed, prop, run);
     let focus = focus_for(prop);
     let (init, mut src, shape) = make_run(s, focus);
-    let out = exec::execute(&init, &mut src, false);
+    let out = exec::execute(&init, &mut src, false, prop);
     let mut stats = out.stats;
     exec::bump(&mut stats, &format!("shape:{}", shape));
     for (i, n) in src.faults_requested.iter().enumerate() {
@@ -111,10 +111,10 @@ pub fn run_lane_n(prop: &str, seed: u64, run: u64) -> RunReport {
 }
 
 /// Replays an explicit lane-N scenario.
-pub fn replay_lane_n(scenario: &Value, verbose: bool) -> Result<Option<Violation>, String> {
+pub fn replay_lane_n(prop: &str, scenario: &Value, verbose: bool) -> Result<Option<Violation>, String> {
     let sc: ops::Scenario = serde_json::from_value(scenario.clone()).map_err(|e| e.to_string())?;
     let mut src = exec::Scripted::new(sc.ops.clone());
-    let out = exec::execute(&sc.init, &mut src, verbose);
+    let out = exec::execute(&sc.init, &mut src, verbose, prop);
     if let Some(r) = out.rejected {
         return Err(format!("scenario rejected: {}", r));
     }
